@@ -793,7 +793,9 @@ def oracle_history(files, cmds, obs, exited_at, snaps, fault=None, final=None, n
             elif all(saved_state_before.values()):
                 # (under the shim: a wq / x whose own write part reports failure -- e.g. "file changed" after an earlier failed save has
                 # stamped the file -- stays because of that failure; more refusal, never less: no exit is demanded then)
-                wfail = fault is not None and ctext in ('wq', 'x') and k < len(obs) and b'write failed' in obs[k]['cmdout']
+                # (without the shim the same can happen after a REFUSED :xa: the buffers it wrote keep their old time stamp -- the finding of round j --
+                # and a later wq of one of them is refused as "file changed" once the clock second has moved on)
+                wfail = ctext in ('wq', 'x') and k < len(obs) and b'write failed' in obs[k]['cmdout']
                 if not gone and not wfail:
                     return (k, ':q refused although every buffer is in its saved state', 'editor exits', 'still alive: ' + repr(obs[k]['cmdout'] if k < len(obs) else b''))
             if gone:
